@@ -33,6 +33,10 @@ func (x *Exec) ufSummaryCall(fn *ssa.Function, args []Value) Value {
 			return CondErrV{Cond: c, E: x.newErr("summary:"+fn.String(), "")}
 		}
 		switch u := t.Underlying().(type) {
+		case *types.Pointer:
+			// an opaque object: callers of summarised functions may only pass it on or drop it
+			x.objN++
+			return PtrV{Obj: x.newObj(OpaqueV{Kind: "summary-object", ID: x.objN}, name)}
 		case *types.Slice:
 			return SliceV{Atom: x.B.App(name, smt.SStr, ts...)}
 		case *types.Basic:
